@@ -357,33 +357,33 @@ theorem foldl_stepOpt_pre (k : String) : ∀ (d : List Item) (o : Option J) (c :
 /-! ### the theorem -/
 
 /-- the state of a key up to `≈`: erased ≡ `null`. -/
-def oeqv (oa ob : Option J) : Prop := optRel pyEq (dnOpt oa) (dnOpt ob)
+def oeqv (oa ob : Option J) : Prop := optRel same (dnOpt oa) (dnOpt ob)
 
 theorem eqv_obj_iff {ka kb : Kvs} (hwa : wfKvs ka = true) (hwb : wfKvs kb = true) :
-    pyEq (dropNulls (.obj ka)) (dropNulls (.obj kb)) = true ↔ ∀ k, oeqv (lookup k ka) (lookup k kb) := by
+    same (dropNulls (.obj ka)) (dropNulls (.obj kb)) = true ↔ ∀ k, oeqv (lookup k ka) (lookup k kb) := by
   rw [dropNulls_obj, dropNulls_obj, pyEq_obj_iff (wfKvs_dropNulls hwa) (wfKvs_dropNulls hwb)]
   simp only [lookup_dropNulls _ (nodupKeys_of_wf hwa), lookup_dropNulls _ (nodupKeys_of_wf hwb), oeqv]
 
-theorem eqv_refl (a : J) (h : wf a = true) : pyEq (dropNulls a) (dropNulls a) = true :=
+theorem eqv_refl (a : J) (h : wf a = true) : same (dropNulls a) (dropNulls a) = true :=
   pyEq_refl _ (wf_dropNulls a h)
 
-theorem diffLeaf_cases {a b : J} (p : Path) (h : pyEq a b = false) :
+theorem diffLeaf_cases {a b : J} (p : Path) (h : same a b = false) :
     (diffLeaf a b p = [⟨.remove, p, a, b⟩] ∧ b = .null) ∨
     (diffLeaf a b p = [⟨.add, p, a, b⟩]) ∨ (diffLeaf a b p = [⟨.change, p, a, b⟩]) := by
   unfold diffLeaf
   simp only [h, Bool.false_eq_true, if_false]
-  cases a <;> cases b <;> simp [pyEq] at h ⊢
+  cases a <;> cases b <;> simp [same] at h ⊢
 
 theorem apply_leaf {a b : J} (hwa : wf a = true) (hwb : wf b = true) :
     wf (applyDiff (diffLeaf a b []) a) = true ∧
-    pyEq (dropNulls (applyDiff (diffLeaf a b []) a)) (dropNulls b) = true := by
-  cases h : pyEq a b with
+    same (dropNulls (applyDiff (diffLeaf a b []) a)) (dropNulls b) = true := by
+  cases h : same a b with
   | true =>
     rw [(diffLeaf_nil_iff a b []).2 h]
     exact ⟨hwa, (diff_nil_iff a b [] hwa hwb).1 (diff_of_pyEq [] h)⟩
   | false =>
     rcases diffLeaf_cases [] h with ⟨h1, h2⟩ | h1 | h1
-    · subst h2; rw [h1]; simp [applyDiff, applyItem, delPath, wf, dropNulls, pyEq]
+    · subst h2; rw [h1]; simp [applyDiff, applyItem, delPath, wf, dropNulls, same]
     · rw [h1]; simp only [applyDiff, List.foldl_cons, List.foldl_nil, applyItem, setPath]
       exact ⟨hwb, eqv_refl b hwb⟩
     · rw [h1]; simp only [applyDiff, List.foldl_cons, List.foldl_nil, applyItem, setPath]
@@ -395,10 +395,10 @@ theorem dropNulls_eq_null {y : J} (h : dropNulls y = .null) : y = .null := by
 /-- **applying `diff a b` to `a` gives a well-formed value equal to `b` up to `≈`.** -/
 theorem apply_diff_aux (a : J) : ∀ (b : J), wf a = true → wf b = true →
     wf (applyDiff (diff a b []) a) = true ∧
-    pyEq (dropNulls (applyDiff (diff a b []) a)) (dropNulls b) = true := by
+    same (dropNulls (applyDiff (diff a b []) a)) (dropNulls b) = true := by
   refine objInduction (P := fun a => ∀ (b : J), wf a = true → wf b = true →
     wf (applyDiff (diff a b []) a) = true ∧
-    pyEq (dropNulls (applyDiff (diff a b []) a)) (dropNulls b) = true) a ?_ ?_
+    same (dropNulls (applyDiff (diff a b []) a)) (dropNulls b) = true) a ?_ ?_
   · intro a ha b hwa hwb
     rw [diff_leaf_left b [] ha]; exact apply_leaf hwa hwb
   · intro ka ih b hwa hwb
@@ -408,7 +408,7 @@ theorem apply_diff_aux (a : J) : ∀ (b : J), wf a = true → wf b = true →
       cases b <;> simp [isObj] at hb
       rename_i kb
       rw [diff_obj_obj]
-      by_cases hpe : pyEq (.obj ka) (.obj kb) = true
+      by_cases hpe : same (.obj ka) (.obj kb) = true
       · rw [if_pos hpe]
         exact ⟨hwa, (diff_nil_iff _ _ [] hwa hwb).1 (diff_of_pyEq [] hpe)⟩
       · rw [if_neg hpe]
